@@ -53,6 +53,9 @@ CHECKS = {
  "C12": dict(engine="E3-crash", category="fault_enumeration", technique="fault injection at every storage tick of generated scenarios (in-process panic and abort() in a child process), differential against an uninterrupted twin on a copy of the database",
    text="For generated scenarios over every operation class named by the property, every storage tick k of the target call is enumerated: a fresh copy of the victim's database runs the call with the hook armed to die at k (unwinding in-process; in a share of the cases abort() in a child process, leaving hot journals), the file is reopened, must open and load every group, and re-offering the interrupted event plus all later events must end in the exact observable state of an uninterrupted twin (local calls: retry succeeds and records mirror MLS state; raw snapshot / rollback / relay transactions: the full dump equals the pre- or the post-state). Per scenario the enumeration of k is exhaustive; scenarios are sampled.",
    note="Assumes the tick hook marks every storage step (every with_connection call and every statement boundary of the explicit transactions); power loss / torn pages are out of scope. Crash points strictly between a call's first and last durable write are excused only for the listed non-atomicity findings (O17, O18, O31, O32).", ref="DESIGN.md §4 C12"),
+ "C13": dict(engine="E1-world on SQLCipher + E3 ticks + threads", category="exploration", technique="property-based testing: canary search in every database/sidecar file over generated histories (at every storage tick and at rest), model-based constructor x file-state sequences, randomized concurrent first opens",
+   text="(1) generated histories incl. rollbacks and 20-50 KB values on SQLCipher storage (caller key / mock keyring) under umask 000: canaries read back through the API are searched in several encodings in every sidecar file at every storage tick and in every file at rest; pragmas, file mode, one-bit-wrong key / no key refused without touching the file, right key shows the same data. (2) generated constructor sequences over {keyring A, keyring B, key 1, key 2, unencrypted} on {missing, empty, plain, encrypted} files (optionally below directories the library must create) against a small model: Ok/Err, refused opens change neither file nor keyring, entries are reused, directories 0700. (3) 2..16 threads opening one new path at once: no panic, one key, shared rows, normal open afterwards. Search, not proof.",
+   note="The keyring is keyring-core's in-process mock; journals of single autocommitted statements are only visible where a tick falls inside an explicit transaction or at rest; racing openers may fail spuriously (not judged).", ref="DESIGN.md §4 C13"),
 }
 
 checks = []
